@@ -88,8 +88,59 @@ def adopt(args):
     return 0
 
 
+def run_scratch_one(job):
+    """Apply the patch to a scratch copy of /repo's HEAD (git archive) and point the checks at it."""
+    sid, props, tier = job
+    import tempfile
+
+    d = os.path.join(HERE, "seeded", sid)
+    tmp = tempfile.mkdtemp(prefix="gwfseed", dir="/dev/shm")
+    out_lines = []
+    results = {}
+    try:
+        rc, out = sh(["bash", "-c", f"git -C /repo archive HEAD src | tar -x -C {tmp}"])
+        rc, out = sh(["git", "apply", "--unsafe-paths", f"--directory={tmp}", os.path.join(d, "patch.diff")], cwd=tmp)
+        if rc != 0:
+            rc, out = sh(["patch", "-p1", "-i", os.path.join(d, "patch.diff")], cwd=tmp)
+        if rc != 0:
+            return sid, {}, [f"{sid} patch does not apply: {out[-200:]}"]
+        for prop in props:
+            env = dict(os.environ, VERIF_OUT=os.path.join(tmp, "out"), GWF_VERIF_SRC=os.path.join(tmp, "src"),
+                       VERIF_JOBS="2")
+            try:
+                rc, out = sh([PY, os.path.join(HERE, "check.py"), prop, "--tier", tier], cwd=HERE, env=env, timeout=2400)
+            except subprocess.TimeoutExpired:
+                rc, out = 124, ""
+            detail = [l for l in out.splitlines() if l.startswith("  {")][:1]
+            out_lines.append(f"{sid:10s} {prop} {'DETECTED' if rc == 1 else 'MISSED rc=' + str(rc)} {(detail or [''])[0][:170]}")
+            results[f"{prop}:{tier}"] = {"rc": rc, "detail": (detail or [""])[0][:300]}
+    finally:
+        shutil.rmtree(tmp, ignore_errors=True)
+    return sid, results, out_lines
+
+
 def run(args):
     ids = args.ids or sorted(os.listdir(os.path.join(HERE, "seeded")))
+    if args.scratch:
+        from concurrent.futures import ThreadPoolExecutor
+
+        jobs = []
+        for sid in ids:
+            mp = os.path.join(HERE, "seeded", sid, "meta.json")
+            if os.path.exists(mp):
+                meta = json.load(open(mp))
+                jobs.append((sid, args.props.split(",") if args.props else [meta["property"]], args.tier))
+        bad = 0
+        with ThreadPoolExecutor(args.jobs) as ex:
+            for sid, results, lines in ex.map(run_scratch_one, jobs):
+                for l in lines:
+                    print(l, flush=True)
+                mp = os.path.join(HERE, "seeded", sid, "meta.json")
+                meta = json.load(open(mp))
+                meta["detected_by"].update(results)
+                json.dump(meta, open(mp, "w"), indent=1)
+                bad += sum(1 for r in results.values() if r["rc"] != 1)
+        return 1 if bad else 0
     bad = 0
     for sid in ids:
         d = os.path.join(HERE, "seeded", sid)
@@ -123,6 +174,49 @@ def run(args):
     return 1 if bad else 0
 
 
+def revalidate(args):
+    """Re-confirm stored seeded changes against /repo's current HEAD (fix commits made after a change was
+    produced can make it harmless).  Uses one scratch worktree, removed afterwards."""
+    wt = "/tmp/wt_revalidate"
+    sh(["git", "-C", "/repo", "worktree", "remove", "--force", wt])
+    rc, out = sh(["git", "-C", "/repo", "worktree", "add", "-q", "--detach", wt, "HEAD"])
+    if rc != 0:
+        print(out)
+        return 2
+    try:
+        for sid in args.ids or sorted(os.listdir(os.path.join(HERE, "seeded"))):
+            d = os.path.join(HERE, "seeded", sid)
+            mp = os.path.join(d, "meta.json")
+            if not os.path.exists(mp):
+                continue
+            meta = json.load(open(mp))
+            os.makedirs(os.path.join(wt, "demo"), exist_ok=True)
+            shutil.copy(os.path.join(d, "demo.py"), os.path.join(wt, "demo", "demo_x.py"))
+            text = open(os.path.join(wt, "demo", "demo_x.py")).read()
+            # demos refer to their original scratch worktree by absolute path
+            import re
+            text = re.sub(r"/tmp/wt_C[0-9]+", wt, text)
+            open(os.path.join(wt, "demo", "demo_x.py"), "w").write(text)
+            rc0, out0 = run_demo(wt, "demo_x.py")
+            rc, out = sh(["git", "apply", os.path.join(d, "patch.diff")], cwd=wt)
+            if rc != 0:
+                status = "patch-no-longer-applies"
+                rc1 = None
+            else:
+                ok, tline = run_tests(wt)
+                rc1, out1 = run_demo(wt, "demo_x.py")
+                sh(["git", "checkout", "--", "src"], cwd=wt)
+                status = "valid" if (ok and rc0 == 0 and rc1 != 0) else "harmless-on-head" if rc1 == 0 else "invalid"
+            meta["on_head"] = {"status": status, "head": sh(["git", "-C", "/repo", "log", "--format=%h", "-1"])[1].strip(),
+                               "demo_without_patch_rc": rc0, "demo_with_patch_rc": rc1}
+            json.dump(meta, open(mp, "w"), indent=1)
+            print(f"{sid:8s} {status} (demo without patch rc={rc0}, with patch rc={rc1})", flush=True)
+    finally:
+        sh(["git", "-C", "/repo", "worktree", "remove", "--force", wt])
+        sh(["git", "-C", "/repo", "worktree", "prune"])
+    return 0
+
+
 def main():
     ap = argparse.ArgumentParser()
     sub = ap.add_subparsers(dest="cmd", required=True)
@@ -135,8 +229,12 @@ def main():
     r.add_argument("ids", nargs="*")
     r.add_argument("--tier", default="quick")
     r.add_argument("--props")
+    r.add_argument("--scratch", action="store_true", help="patch a scratch copy of /repo HEAD instead of /repo itself")
+    r.add_argument("--jobs", type=int, default=5)
+    v = sub.add_parser("revalidate")
+    v.add_argument("ids", nargs="*")
     args = ap.parse_args()
-    sys.exit(adopt(args) if args.cmd == "adopt" else run(args))
+    sys.exit({"adopt": adopt, "run": run, "revalidate": revalidate}[args.cmd](args))
 
 
 main()
